@@ -72,6 +72,10 @@ func DecodeCMPP20(data []byte) (sms.PDU, error) {
 		pdu = new(PduDeliver)
 	case cmpp.CommandDeliverResp:
 		pdu = new(PduDeliverResp)
+	case cmpp.CommandQuery:
+		pdu = new(PduQuery)
+	case cmpp.CommandQueryResp:
+		pdu = new(PduQueryResp)
 	case cmpp.CommandActiveTest:
 		pdu = new(PduActiveTest)
 	case cmpp.CommandActiveTestResp:
